@@ -13,6 +13,18 @@ WORLD_RULE = ("state = canonical dump of the real PubSub/router/score object gra
 ALL_PROPERTIES = ["C%02d" % i for i in range(1, 21)]
 
 CHECKS = {
+    "C02": {
+        "level": "model_checking", "variants": ["main"], "shards": 16, "deadline_quick": 110, "deadline_thorough": 1800,
+        "engine": "E-SEQ (time cache) + E-WORLD (+ E-SCHED)",
+        "technique": "explicit-state model checking of the implementation: BFS by replay of the real time cache (real sweeper, virtual time) vs. an interval reference, and around one real node fed racing copies with counting, gated validators",
+        "rule": WORLD_RULE,
+        "level_text": "cache alone: every sequence of Add/Has/advance (delays on both sides of the TTL and of TTL+sweep) for both strategies; node: every history over copies of one message from three peers, a local publish with the same ID "
+                      "(content-hash ID function), inline / gated asynchronous validators with 1-2 workers and time advances across TTL and sweep, both strategies; deliveries per subscription and validator invocations per ID are counted "
+                      "against must-remember / must-forget intervals",
+        "level_note": "between TTL and TTL+sweep either answer is accepted (the model follows the implementation)",
+        "assumptions": COMMON_ASSUME,
+        "design_ref": "DESIGN.md §5 C02",
+    },
     "C04": {
         "level": "model_checking", "shards": 16, "deadline_quick": 110, "deadline_thorough": 1800,
         "engine": "E-WORLD",
